@@ -68,7 +68,7 @@ func init() {
 
 func init() {
 	register("C02", &Checker{
-		Run: checkC02,
+		Run: func(p *Prog, l *Ledger) { checkC02(p, l); checkC02Shared(p, l) },
 		Explain: "Decided: S1 dispatch exhaustiveness — every operator token type the parser can store in a Binary/Unary node (read from the token sets of the parser's match calls) selects a real clause of evaluateBinary/evaluateUnary and of the handle* helper: no path returns nil without a reported error (no silent nil for a supported operator), none reaches the 'unknown operator' default. " +
 			"I1 operator table — evaluateBinary/evaluateUnary are explored once per operator token (helpers inlined, coercions toNumber/toInt64/stringifyOperand/isEqual as events) and the set of abstract paths is compared with the reference: operands coerced left then right, a failed coercion reported; the value returned on the success path is exactly op(L,R) on the coerced left and right operands in that order (modulo commutativity of + * & | ^ and a>b ≡ b<a), arithmetic and comparison on float64 (IEEE inherited from Go), bitwise on int64; `+` concatenates text(left)+text(right) in that order using Sprintf(%v)/stringifyOperand. " +
 			"S2 guards — / and % only behind 'right == 0 → error', shifts only behind 'count < 0 → error', each on the very operand used. S3 equality routes to isEqual, which is Go == on the canonical representations except for arrays/objects (identity); != is its negation. toInt64 accepts a float only under float64(int64(v)) == v. " +
@@ -307,6 +307,13 @@ func tokNames(names map[int64]string, set map[int64]bool) []string {
 
 // toNumber / toInt64 per universe representation
 func checkCoercions(p *Prog, l *Ledger) { checkCoercionsRule(p, l, "C02/I1-coercions") }
+
+// checkC02Shared: `+` renders a number the way দেখাও prints it (C15's text-function rule) and == / != compare numbers by
+// value, which Go's interface == does only if every number has the same representation (C16's universe rule).
+func checkC02Shared(p *Prog, l *Ledger) {
+	l.As(map[string]string{"C15/S2-text-function": "C02/S4-concatenation-text"}, func() { checkTextSites(p, l) })
+	l.As(map[string]string{"C16/S1-": "C02/S3-equality/one-representation/", "C16/S3-": "C02/S3-equality/syntactic-origin/"}, func() { checkC16(p, l) })
+}
 
 func checkCoercionsRule(p *Prog, l *Ledger, rule string) {
 	for _, spec := range []struct {
